@@ -203,6 +203,24 @@ func TestC09(t *testing.T) {
 				delete(pback, c.Name)
 			}
 		}
+		// sometimes a row of the same table is rejected first (one column of the full row gets a
+		// value of the wrong kind): what that conversion had got through must not show up in the
+		// sparse row converted next
+		if len(tb.Cols) > 1 && rapid.Bool().Draw(t, "afterrejected") {
+			bad := ovsdb.Row{}
+			for k, v := range back {
+				bad[k] = v
+			}
+			bc := tb.Cols[rapid.IntRange(0, len(tb.Cols)-1).Draw(t, "rejectedcol")]
+			bad[bc.Name] = map[string]interface{}{"not": "a value"}
+			scratch := w.ModelFromRow(tb.Name, "scratch-uuid", sentinel)
+			sinfo, _ := w.DBModel.NewModelInfo(scratch)
+			if err := mp.GetRowData(&bad, sinfo); err == nil {
+				kit.Fail(t, "C09", "mapper.wrongtype-accepted", kase, "GetRowData accepted a JSON object as the value of column %s", bc.Name)
+			}
+			_, _ = model.CreateModel(w.DBModel, tb.Name, &bad, uuid)
+			kit.Label("C09", "sparse-row-after-a-rejected-row")
+		}
 		target2 := w.ModelFromRow(tb.Name, "sentinel-uuid", sentinel)
 		t2info, _ := w.DBModel.NewModelInfo(target2)
 		if err := mp.GetRowData(&pback, t2info); err != nil {
